@@ -1,7 +1,9 @@
 #!/usr/bin/env python3
 """Run a command with a pseudo-terminal of a given width as its standard output and standard error
 (standard input stays /dev/null), print what it wrote as hex on one line and its exit status on the next.
-usage: pty_run.py COLS ROWS CWD cmd args...   (used by the harness for renderings that only a terminal sees)"""
+usage: pty_run.py COLS ROWS CWD cmd args...   (used by the harness for renderings that only a terminal sees)
+The environment variable PTY_FDS chooses which descriptors get the terminal: "12" (default), "1" or "2"; the other one
+of standard output / standard error is sent to the file named by PTY_OTHER (default /dev/null)."""
 import os, pty, sys, fcntl, termios, struct, select
 cols, rows, cwd = int(sys.argv[1]), int(sys.argv[2]), sys.argv[3]
 argv = sys.argv[4:]
@@ -12,8 +14,10 @@ if pid == 0:
     os.chdir(cwd)
     devnull = os.open("/dev/null", os.O_RDONLY)
     os.dup2(devnull, 0)
-    os.dup2(slave, 1)
-    os.dup2(slave, 2)
+    fds = os.environ.get("PTY_FDS", "12")
+    other = os.open(os.environ.get("PTY_OTHER", "/dev/null"), os.O_WRONLY | os.O_CREAT | os.O_TRUNC, 0o644)
+    os.dup2(slave if "1" in fds else other, 1)
+    os.dup2(slave if "2" in fds else other, 2)
     os.close(master)
     env = dict(os.environ, TERM="xterm-256color")
     env.pop("NO_COLOR", None)
